@@ -8,6 +8,11 @@ Oracle: forward-mode dual numbers in the harness (oracle.py) vs gradient(e, v).e
         Magnitude family (checklist 1): constants of every magnitude class (tiny 1e-300 … 1e-6, within 2^-52 … 1e-6
         of ±1, huge 1e6 … 1e300) in every multiplicative / chain / exponent / coefficient position, judged
         RELATIVELY to the true derivative (numeric_check_rel), because such a derivative is itself 1e-9-small.
+        Parameter family (checklist 29): Parameters as exponent / coefficient / base / additive term / denominator, in
+        compound variable-free sub-expressions, inside and beside vector nodes, at the end of deep chains × histories
+        'differentiate while the parameter holds v0 (0, 1, default, near 0 / 1, generic) → Parameter.set(v1) → set(v2)':
+        every tree obtained so far and the tree returned by a fresh gradient(e, v) are judged at the CURRENT values
+        against dual numbers, on the recursive and on the explicit-stack path (param_history_oracle).
 """
 from __future__ import annotations
 
@@ -519,7 +524,7 @@ def ref_eval_extended(g, point):
     return _extended(lambda vals: oracle.prim(oracle.ref_eval(g, vals)), point)
 
 
-def numeric_check_rel(e, w, point, rtol=MAG_RTOL):
+def numeric_check_rel(e, w, point, rtol=MAG_RTOL, g=None):
     """oracle on the real code, RELATIVE criterion: |gradient(e, w)(p) - D| <= rtol·|D| with D from dual numbers.
     For trees whose stored numbers span many orders of magnitude the true derivative may itself be 1e-9- or
     1e+9-sized, so an absolute tolerance says nothing.  returns None (ok) / 'skip' / failure dict.
@@ -534,16 +539,17 @@ def numeric_check_rel(e, w, point, rtol=MAG_RTOL):
            rtol/10.
     The oracle's absolute regularity margin (1e-3 around every singular set) is switched off here — a denominator
     or a log argument 1e-10·x is tiny, not near-singular — only points ON a singular set are irregular; nearness in
-    the relative sense is what G1 measures."""
+    the relative sense is what G1 measures.
+    g: a gradient tree obtained EARLIER from gradient(e, w) (parameter histories); default: requested now."""
     old_margin = oracle.MARGIN
     oracle.MARGIN = 0.0
     try:
-        return _numeric_check_rel(e, w, point, rtol)
+        return _numeric_check_rel(e, w, point, rtol, g)
     finally:
         oracle.MARGIN = old_margin
 
 
-def _numeric_check_rel(e, w, point, rtol):
+def _numeric_check_rel(e, w, point, rtol, g=None):
     import optyx.core.autodiff as AD
 
     def ref(pt):
@@ -559,7 +565,8 @@ def _numeric_check_rel(e, w, point, rtol):
     with warnings.catch_warnings(), np.errstate(all="ignore"):
         warnings.simplefilter("ignore")
         try:
-            g = AD.gradient(e, w)
+            if g is None:
+                g = AD.gradient(e, w)
             got = float(np.asarray(g.evaluate(point)))
         except Exception as ex:  # noqa: BLE001
             return {"what": "gradient raised", "error": f"{type(ex).__name__}: {ex}"[:200], "criterion": "relative"}
@@ -643,8 +650,9 @@ def py_gradients(e, w):
     return res
 
 
-def numeric_check(e, w, point):
+def numeric_check(e, w, point, g=None):
     """oracle on the real code: gradient(e, w).evaluate(point) vs dual numbers.
+    g: a gradient tree obtained EARLIER from gradient(e, w) (parameter histories); default: requested now.
     returns None (ok / skipped) or a failure dict"""
     import optyx.core.autodiff as AD
 
@@ -657,7 +665,8 @@ def numeric_check(e, w, point):
     with warnings.catch_warnings(), np.errstate(all="ignore"):
         warnings.simplefilter("ignore")
         try:
-            g = AD.gradient(e, w)
+            if g is None:
+                g = AD.gradient(e, w)
             got = float(np.asarray(g.evaluate(point)))
         except Exception as ex:  # noqa: BLE001
             return {"what": "gradient raised", "error": f"{type(ex).__name__}: {ex}"[:200]}
@@ -675,13 +684,538 @@ def numeric_check(e, w, point):
     return None
 
 
+# ------------------------------------------------------------------ Parameters × set histories (checklist 29)
+#
+# A Parameter is a leaf whose value changes between calls; `gradient(e, v)` is a TREE, and the property speaks about
+# what that tree evaluates to — at the parameter values in force when it is EVALUATED.  So nothing the differentiator
+# decides may depend on the value a Parameter happens to hold when the tree is built (shortcuts around 0 and 1, constant
+# folding, "fixed exponent" rules, tolerance tests).  Family: Parameters in every position of the differentiated tree
+# (exponent, coefficient, base, additive term, denominator, compound variable-free sub-expressions 2*p / p-q / -p / p*q,
+# inside vector nodes and beside them, at the far end of deep chains) × histories
+#     build while the parameters hold v0 -> gradient -> set(v1) -> gradient again -> set(v2) -> gradient again
+# with v0 / v1 / v2 from {0, 1 (exactly; also the constructor's default), within 1e-9 of 0 and 1, generic}; after every
+# step EVERY tree obtained so far and the tree returned by a fresh request (the memo of `_gradient_cached` is keyed on
+# the expression object) is judged at the CURRENT values against the dual-number oracle (which reads the current values),
+# on the recursive path and on the explicit-stack path (threshold forced to 0), values handed over in several numeric types.
+
+PH_SPECIAL = [0.0, 1.0]
+PH_GENERIC = [3.0, 2.5, -1.0, 2.0, 0.5, -2.5, 4.0, 1.5, -0.5, -2.0]
+PH_NEAR = [1e-9, 1.0 + 1e-9, 1.0 - 1e-9, -1e-9, 1e-12, 1.0 + 1e-12, 1.0 - 2.0 ** -52, 9e-9, 1.0 + 9e-9]
+PH_FORMS = ("float", "int", "np.float64", "np.int64", "0d", "np.float32", "np.int8")
+PH_PATHS = ("recursive", "iterative")
+
+
+def ph_value(form, v):
+    """the value v in the numeric type `form` (as handed to Parameter(...) / Parameter.set)"""
+    if form == "int":
+        return int(v)
+    if form == "np.float64":
+        return np.float64(v)
+    if form == "np.int64":
+        return np.int64(int(v))
+    if form == "np.int8":
+        return np.int8(int(v))
+    if form == "np.float32":
+        return np.float32(v)
+    if form == "0d":
+        return np.array(float(v))
+    return float(v)
+
+
+def ph_form(rng, v):
+    """a numeric type able to hold v exactly"""
+    forms = ["float", "float", "np.float64", "0d"]
+    if float(v).is_integer() and abs(v) < 100:
+        forms += ["int", "int", "np.int64", "np.int8"]
+    if float(np.float32(v)) == float(v):
+        forms.append("np.float32")
+    return rng.choice(forms)
+
+
+def ph_universe(rng, stage0, via):
+    """fresh modelling objects + the two parameters (roles 'p', 'q') created AT their first values.
+    via = 'scalar': two Parameter objects, updated by Parameter.set; form 'default' = Parameter(name) without a value
+    via = 'vector': the elements of one VectorParameter, updated together by VectorParameter.set(array)"""
+    from optyx import Parameter, VectorParameter
+
+    U = gen.Universe(rng)
+    if via == "vector":
+        vp = VectorParameter("pv", 2, np.array([float(stage0["p"][1]), float(stage0["q"][1])]))
+        P = {"p": vp[0], "q": vp[1]}
+
+        def setter(stage):
+            vp.set(np.array([float(stage["p"][1]), float(stage["q"][1])]))
+    else:
+        P = {}
+        for role in ("p", "q"):
+            form, v = stage0[role]
+            P[role] = Parameter("ph" + role) if form == "default" else Parameter("ph" + role, ph_value(form, v))
+
+        def setter(stage):
+            for role in ("p", "q"):
+                form, v = stage[role]
+                P[role].set(ph_value("float" if form == "default" else form, v))
+    return U, P, setter
+
+
+def param_templates(U, P):
+    """[(tag, thunk -> expression)]: Parameters p, q in every position of a differentiated tree"""
+    from optyx.core.expressions import Constant as C, UnaryOp
+    from optyx.core import vectors as V
+    from optyx.core import matrices as M
+
+    x, y = U.scalars[0], U.scalars[1]
+    vx, vy, n = U.x, U.y, U.n
+    p, q = P["p"], P["q"]
+    sin = lambda a: UnaryOp(a, "sin")  # noqa: E731
+    un = lambda op, a: UnaryOp(a, op)  # noqa: E731
+    cs = np.array(([2.0, -1.0, 0.5] + [1.0] * n)[:n])
+    Q = np.array([[(i + 1.0) * (j - 1.0) + (0.5 if i == j else 0.0) for j in range(n)] for i in range(n)])
+    T = []
+
+    def add(tag, f):
+        T.append((tag, f))
+
+    # --- exponent
+    add("x**p", lambda: x ** p)
+    add("(x*y+1.5)**p", lambda: (x * y + 1.5) ** p)
+    add("(x*x+1)**p+sin(x)", lambda: (x * x + 1.0) ** p + sin(x))
+    add("sin(x**p)", lambda: sin(x ** p))
+    add("(x**p)*y", lambda: (x ** p) * y)
+    add("y*(x**p)", lambda: y * (x ** p))
+    add("y/((x*x+1)**p+2)", lambda: y / ((x * x + 1.0) ** p + 2.0))
+    add("(x**p)**2", lambda: (x ** p) ** 2)
+    add("(x**2)**p", lambda: (x ** 2) ** p)
+    add("(x**p)**q", lambda: (x ** p) ** q)
+    add("x**p*x**q", lambda: x ** p * x ** q)
+    add("x**p+y**p", lambda: x ** p + y ** p)
+    add("x**p-x", lambda: x ** p - x)
+    add("t*t:x**p", lambda: (lambda t: t * t)(x ** p))
+    add("exp(x)**p", lambda: un("exp", un("tanh", x)) ** p)
+    add("log(x**p+1)", lambda: un("log", x ** p + 1.0))
+    add("(x**p-y)**2", lambda: (x ** p - y) ** 2)
+    add("3*x**p", lambda: 3.0 * x ** p)
+    add("-(x**p)", lambda: -(x ** p))
+    add("(x*y)**p/y", lambda: (x * y) ** p / y)
+    add("x**(2*p)", lambda: x ** (2.0 * p))
+    add("x**(p-q)", lambda: x ** (p - q))
+    add("x**(-p)", lambda: x ** (-p))
+    add("x**(p*q)", lambda: x ** (p * q))
+    add("x**(p+1)", lambda: x ** (p + 1.0))
+    add("x**(p/2)", lambda: x ** (p / 2.0))
+    add("x**(p*y)", lambda: x ** (p * y))
+    add("(x*x+1)**(y+p)", lambda: (x * x + 1.0) ** (y + p))
+    # --- coefficient
+    add("p*x", lambda: p * x)
+    add("x*p", lambda: x * p)
+    add("p*(x*y)", lambda: p * (x * y))
+    add("(p*x)*y", lambda: (p * x) * y)
+    add("y*(x*p)", lambda: y * (x * p))
+    add("p*sin(x)", lambda: p * sin(x))
+    add("sin(p*x)", lambda: sin(p * x))
+    add("exp(p*x)", lambda: un("exp", p * un("tanh", x)))
+    add("(p*x)**2", lambda: (p * x) ** 2)
+    add("(p*x)**3*y", lambda: (p * x) ** 3 * y)
+    add("(p*p*x+1)**q", lambda: (p * p * x * x + 1.0) ** q)
+    add("p*x*x", lambda: p * x * x)
+    add("p*x+q*y", lambda: p * x + q * y)
+    add("(p*x)*(q*x)", lambda: (p * x) * (q * x))
+    add("-(p*x)", lambda: -(p * x))
+    add("(2*p)*x", lambda: (2.0 * p) * x)
+    add("(p-q)*x", lambda: (p - q) * x)
+    add("(-p)*x", lambda: (-p) * x)
+    add("(p*q)*x", lambda: (p * q) * x)
+    add("(p+1)*x", lambda: (p + 1.0) * x)
+    add("x*x*p+x", lambda: x * x * p + x)
+    add("sin(x)*p*cos(y)", lambda: sin(x) * p * un("cos", y))
+    add("p*x-x*y", lambda: p * x - x * y)
+    add("p*x**3", lambda: p * x ** 3)
+    add("t*t:p*x", lambda: (lambda t: t * t)(p * x))
+    for op in ("cos", "tanh", "atan", "sinh", "abs", "sqrt", "log"):
+        inner = (lambda: p * x) if op not in ("sqrt", "log") else (lambda: p * p * x * x + 1.0)
+        add(f"{op}(p*x)", lambda op=op, inner=inner: un(op, inner()))
+        add(f"p*{op}(x)", lambda op=op: p * un(op, x * x + 1.0))
+    # --- numerator / denominator
+    add("x/p", lambda: x / p)
+    add("p/x", lambda: p / x)
+    add("(p*x)/y", lambda: (p * x) / y)
+    add("y/(p*x)", lambda: y / (p * x))
+    add("x/(p*p+1)", lambda: x / (p * p + 1.0))
+    add("x/(y*y+p*p+1)", lambda: x / (y * y + p * p + 1.0))
+    add("p/(x*x+1)", lambda: p / (x * x + 1.0))
+    add("1/(x*x+p*p+0.5)", lambda: C(1.0) / (x * x + p * p + 0.5))
+    add("(x/p)/y", lambda: (x / p) / y)
+    # --- base
+    add("p**x", lambda: p ** x)
+    add("p**(x*y)", lambda: p ** (x * y))
+    add("(p*p+1)**x", lambda: (p * p + 1.0) ** x)
+    add("(p*p+q*q+0.5)**x", lambda: (p * p + q * q + 0.5) ** x)
+    add("(p*x)**y", lambda: (p * x) ** y)
+    add("p**x*y", lambda: p ** x * y)
+    add("sin(p**x)", lambda: sin(p ** x))
+    # --- additive term
+    add("x+p", lambda: x + p)
+    add("p-x", lambda: p - x)
+    add("(x+p)**2", lambda: (x + p) ** 2)
+    add("(x+p)**3", lambda: (x + p) ** 3)
+    add("sin(x+p)", lambda: sin(x + p))
+    add("(x+p)*(y-q)", lambda: (x + p) * (y - q))
+    add("(x-p)*(x-p)", lambda: (x - p) * (x - p))
+    add("log((x+p)**2+1)", lambda: un("log", (x + p) ** 2 + 1.0))
+    add("(x+p)/(y*y+1+q*q)", lambda: (x + p) / (y * y + 1.0 + q * q))
+    add("x*(y+p)", lambda: x * (y + p))
+    add("(x+p)*x", lambda: (x + p) * x)
+    add("(x+p)**q", lambda: ((x + p) * (x + p) + 1.0) ** q)
+    # --- inside vector nodes and beside them
+    add("c@ve(p)", lambda: cs @ V.VectorExpression([p * vx[0], vx[1] + p] + [vx[i] * vx[i] * q for i in range(2, n)]))
+    add("lc(ve(x**p))", lambda: V.LinearCombination(cs, V.VectorExpression([(vx[i] * vx[i] + 1.0) ** p for i in range(n)])))
+    add("ve(pq)@x", lambda: V.VectorExpression(([p, q, p * q] + [p] * n)[:n]) @ vx)
+    add("x.dot(ve(pq))", lambda: vx.dot(V.VectorExpression(([q, p - q, -p] + [p] * n)[:n])))
+    add("dot(ve(p*x),y)", lambda: V.DotProduct(V.VectorExpression([p * v for v in vx]), vy))
+    add("dot(s,s):p*x", lambda: (lambda s_: V.DotProduct(s_, s_))(V.VectorExpression([p * v + q for v in vx])))
+    add("p*(c@x)", lambda: p * (cs @ vx))
+    add("(c@x)*p", lambda: (cs @ vx) * p)
+    add("p*(c@x)+q*x0", lambda: p * (cs @ vx) + q * vx[0])
+    add("((c@x)**2+1)**p", lambda: ((cs @ vx) ** 2 + 1.0) ** p)
+    add("(c@x)**2*p", lambda: (cs @ vx) ** 2 * p)
+    add("sin(p*(c@x))", lambda: sin(p * (cs @ vx)))
+    add("p*x.dot(y)", lambda: p * vx.dot(vy))
+    add("x.dot(y)**p", lambda: (vx.dot(vx) + 1.0) ** p)
+    add("l2(ve(p))", lambda: V.L2Norm(V.VectorExpression([p * vx[0], vx[1] + q] + [vx[i] for i in range(2, n)])))
+    add("l1(ve(p))", lambda: V.L1Norm(V.VectorExpression([p * vx[0] + 3.0, vx[1] * q + 3.0] + [vx[i] for i in range(2, n)])))
+    add("p*l2(x)", lambda: p * V.L2Norm(vx))
+    add("l2(x)**p", lambda: V.L2Norm(vx) ** p)
+    add("qf(ve(p))", lambda: M.QuadraticForm(V.VectorExpression([p * vx[0], vx[1] + p] + [vx[i] ** 2 * q for i in range(2, n)]), Q))
+    add("p*qf(x)", lambda: p * M.QuadraticForm(vx, Q))
+    add("sum(ve(p))", lambda: V.VectorExpression([p * sin(vx[0]), (vx[1] * vx[1] + 1.0) ** p] + [q * vx[i] for i in range(2, n)]).sum())
+    add("p*ps(x,3)", lambda: p * V.VectorPowerSum(vx, 3))
+    add("ps(x,2)**p", lambda: (V.VectorPowerSum(vx, 2) + 1.0) ** p)
+    add("p*us(x,sin)", lambda: p * V.VectorUnarySum(vx, "sin"))
+    add("p*sum(x)", lambda: p * V.VectorSum(vx))
+    add("sin(p*sum(x))", lambda: sin(p * V.VectorSum(vx)))
+    add("(sum(x)+p)**2", lambda: (V.VectorSum(vx) + p) ** 2)
+    add("p*sum(M)", lambda: p * U.M.sum())
+    add("fro(S)**p", lambda: M.FrobeniusNorm(U.S) ** p)
+    add("p*(M*M).sum", lambda: p * (U.M * U.M).sum() + q * U.M[0, 1])
+
+    # --- depth: the parameter-carrying node at the far end of / on top of a chain deeper than the recursion threshold
+    def chain(start, m=420):
+        acc = start
+        for i in range(m):
+            acc = acc + C(((i % 7) - 3) / 8.0) * (y if i % 2 else x)
+        return acc
+
+    add("deep:x**p+chain", lambda: chain(x ** p))
+    add("deep:p*x+chain", lambda: chain(p * x * x))
+    add("deep:(chain**2+1)**p", lambda: (chain(x) * C(1.0 / 64) * (chain(y) * C(1.0 / 64)) + 2.0) ** p)
+    add("deep:p*chain", lambda: p * chain(x * y))
+    return T
+
+
+def expr_params(e):
+    """name -> Parameter object occurring in the tree (harness's own explicit-stack walk, through vector containers)"""
+    from optyx.core.expressions import BinaryOp, UnaryOp
+    from optyx.core.parameters import Parameter
+
+    out, stack, seen = {}, [e], set()
+    while stack:
+        t = stack.pop()
+        if id(t) in seen:
+            continue
+        seen.add(id(t))
+        if isinstance(t, Parameter):
+            out.setdefault(t.name, t)
+        elif isinstance(t, BinaryOp):
+            stack += [t.left, t.right]
+        elif isinstance(t, UnaryOp):
+            stack.append(t.operand)
+        else:
+            for attr in ("vector", "left", "right", "expression", "matrix"):
+                ex = getattr(getattr(t, attr, None), "_expressions", None)
+                if ex is not None:
+                    stack += [z for row in ex for z in (row if isinstance(row, list) else [row])]
+    return out
+
+
+def nonliteral_pow_bases(e):
+    """the base sub-trees of every `**` whose exponent is not a literal Constant (walk as above)"""
+    from optyx.core.expressions import BinaryOp, Constant, UnaryOp
+
+    out, stack, seen = [], [e], set()
+    while stack:
+        t = stack.pop()
+        if id(t) in seen:
+            continue
+        seen.add(id(t))
+        if isinstance(t, BinaryOp):
+            if t.op == "**" and not isinstance(t.right, Constant):
+                out.append(t.left)
+            stack += [t.left, t.right]
+        elif isinstance(t, UnaryOp):
+            stack.append(t.operand)
+        else:
+            for attr in ("vector", "left", "right", "expression", "matrix"):
+                ex = getattr(getattr(t, attr, None), "_expressions", None)
+                if ex is not None:
+                    stack += [z for row in ex for z in (row if isinstance(row, list) else [row])]
+    return out
+
+
+def regular_nonliteral_pow(bases, point) -> bool:
+    """`Regular` of the Lean model for base ** (anything but a literal): 0 < base (a Parameter exponent is not a literal,
+    whatever integer it currently holds; the library differentiates such a power through exp / log).  With margin."""
+    for b in bases:
+        try:
+            if not oracle.prim(oracle.ref_eval(b, point)) > 1e-2:
+                return False
+        except (oracle.NotRegular, OverflowError, ZeroDivisionError, ValueError):
+            return False
+    return True
+
+
+def ph_points(rng, names, k=2):
+    """positive points first (bases of parameter powers are then usually positive), then mixed signs"""
+    names = sorted(names)
+    pts = [{m: rng.randint(2, 16) / 8 + 1 / 16 for m in names}]
+    while len(pts) < k:
+        pts.append({m: rng.randint(-16, 16) / 8 + 1 / 16 for m in names})
+    return pts
+
+
+def ph_histories(rng, full):
+    """[[stage, ...]]; stage = {'p': (form, value), 'q': (form, value)}.  Always: first differentiation while p is
+    exactly 0 / exactly 1 / the constructor's default, then generic and back to the other special value; generic first,
+    then 0 and 1; values within 1e-9 of 0 and 1; every value in a numeric type drawn from those able to hold it."""
+    G, S, N = PH_GENERIC, PH_SPECIAL, PH_NEAR
+    g = lambda: rng.choice(G)  # noqa: E731
+    seqs = [[0.0, g(), 1.0], [1.0, g(), 0.0], ["default", g(), rng.choice(S + G)],
+            [g(), rng.choice(S), g()], [rng.choice(N), g(), rng.choice(S + N)]]
+    if full:
+        seqs += [[0.0, 1.0, g()], [1.0, 0.0, g()], [g(), g(), rng.choice(S)], [g(), rng.choice(N), g()],
+                 [0.0, rng.choice(N), g()], [1.0, rng.choice(N), 0.0], [-1.0, 1.0, g()], [2.0, 0.0, 1.0]]
+    else:
+        seqs = seqs[:3] + [rng.choice(seqs[3:])]
+    out = []
+    for ps in seqs:
+        # q: its own walk through special / generic values, special at the first differentiation half of the time
+        qs = [rng.choice(S) if rng.random() < 0.5 else g()]
+        while len(qs) < len(ps):
+            qs.append(rng.choice([v for v in S + G if v != qs[-1]]))
+        stages = []
+        for i, (pv, qv) in enumerate(zip(ps, qs)):
+            if pv == "default":
+                pst = ("default", 0.0)
+            else:
+                if i and float(pv) == float(stages[-1]["p"][1]):
+                    pv = pv + 1.0
+                pst = (ph_form(rng, pv), float(pv))
+            stages.append({"p": pst, "q": (ph_form(rng, qv), float(qv))})
+        out.append(stages)
+    return out
+
+
+def _request_gradient(e, w, path, i):
+    """gradient(e, w) through the path under test: 'recursive' (the library's own choice: registered rule / memoised
+    recursion / explicit stack for deep trees), 'iterative' (explicit stack forced), 'mixed' (alternating per request)"""
+    import optyx.core.autodiff as AD
+
+    force = path == "iterative" or (path == "mixed" and i % 2 == 1)
+    old = AD._RECURSION_THRESHOLD
+    try:
+        if force:
+            AD._RECURSION_THRESHOLD = 0
+        with warnings.catch_warnings():
+            warnings.simplefilter("ignore")
+            return AD.gradient(e, w)
+    finally:
+        AD._RECURSION_THRESHOLD = old
+
+
+def run_param_history(e, P, setter, stages, path, wrts, points):
+    """one history on one expression OBJECT.  P: role -> Parameter (already holding stages[0]); after every stage every
+    gradient tree obtained so far (and the one requested now) is judged at the current parameter values.
+    returns (failure | None, number of oracle evaluations, number skipped)"""
+    held = {w.name: [] for w in wrts}
+    bases = nonliteral_pow_bases(e)
+    n_chk = n_skip = 0
+    for i, stage in enumerate(stages):
+        if i:
+            setter(stage)
+        now = {r: float(np.asarray(P[r].value)) for r in P}
+        for w in wrts:
+            try:
+                held[w.name].append((i, _request_gradient(e, w, path, i)))
+            except Exception as ex:  # noqa: BLE001
+                return ({"what": f"gradient() raised {type(ex).__name__} (parameter history)", "error": str(ex)[:200],
+                         "wrt": w.name, "stage": i, "tree_from_stage": i, "param_values": now}, n_chk, n_skip)
+        for pt in points:
+            if not regular_nonliteral_pow(bases, pt):
+                n_skip += 1
+                continue
+            for w in wrts:
+                for j, g in held[w.name]:
+                    r = numeric_check(e, w, pt, g=g)
+                    n_chk += 1
+                    if r is None:
+                        # a derivative that is itself 1e-9-small (a parameter now holding 1e-9): judged relatively
+                        try:
+                            want = oracle.ref_grad(e, pt, w.name)
+                        except (oracle.NotRegular, OverflowError, ZeroDivisionError, ValueError):
+                            want = None
+                        if want is not None and 0.0 < abs(want) < 1e-4:
+                            r = numeric_check_rel(e, w, pt, rtol=1e-9, g=g)
+                    if r == "skip":
+                        n_skip += 1
+                    elif r is not None:
+                        what = ("the gradient tree obtained while the parameters held earlier values is not the partial "
+                                "derivative at the current parameter values (something was decided on a Parameter's value "
+                                "at differentiation time)") if j < i else \
+                               ("gradient(e, v) requested after Parameter.set() is not the partial derivative at the current "
+                                "parameter values") if i else \
+                               "gradient value differs from the true partial derivative (tree with Parameters)"
+                        r.update({"what": what, "wrt": w.name, "point": pt, "stage": i, "tree_from_stage": j,
+                                  "param_values": now})
+                        return r, n_chk, n_skip
+    return None, n_chk, n_skip
+
+
+def _ph_failure(r, e, tag, via, path, stages, P):
+    try:
+        s = ser(e)
+    except Unsupported as ex:
+        s = f"unsupported:{ex}"
+    r.update({"kind": "param-history", "family": "phist:" + tag, "template": tag, "via": via, "path": path, "expr": s,
+              "history": [{k: [v[0], v[1]] for k, v in st.items()} for st in stages],
+              "param_names": {role: P[role].name for role in P}})
+    return r
+
+
+def param_history_oracle(rng, full, rep=None, limit=None, only=None):
+    """every template × histories × paths; a fresh build of the template (fresh expression object: the memo of the
+    recursive differentiator is keyed on it) for every (history, path).  returns (failures, runs, oracle evaluations)"""
+    fails, n_runs, n_chk = [], 0, 0
+    tags = [t for t, _ in param_templates(*ph_universe(rng, {"p": ("float", 2.0), "q": ("float", 3.0)}, "scalar")[:2])]
+    paths = PH_PATHS + ("mixed",) if full else PH_PATHS
+    for tag in tags:
+        if only is not None and tag != only:
+            continue
+        deep = tag.startswith("deep:")
+        for stages in ph_histories(rng, full and not deep):
+            for path in paths:
+                via = "vector" if (rng.random() < 0.2 and stages[0]["p"][0] != "default") else "scalar"
+                U, P, setter = ph_universe(rng, stages[0], via)
+                build = dict(param_templates(U, P))[tag]
+                try:
+                    with warnings.catch_warnings(), np.errstate(all="ignore"):
+                        warnings.simplefilter("ignore")
+                        e = build()
+                except (ZeroDivisionError, OverflowError):
+                    continue
+                vs = gen.expr_vars(e)
+                if not vs:
+                    continue
+                wrts = vs if (full and len(vs) <= 3) else ([vs[0]] if len(vs) == 1 else rng.sample(vs, 2))
+                if deep:
+                    wrts = wrts[:1]
+                pts = ph_points(rng, {v.name for v in vs}, 3 if full else 2)
+                r, c, sk = run_param_history(e, P, setter, stages, path, wrts, pts)
+                n_runs += 1
+                n_chk += c
+                if rep is not None and sk:
+                    rep.skipped["phist-irregular-point"] = rep.skipped.get("phist-irregular-point", 0) + sk
+                if r is not None:
+                    fails.append(_ph_failure(r, e, tag, via, path, stages, P))
+                    if limit is not None and len(fails) >= limit:
+                        return fails, n_runs, n_chk
+                    break
+            else:
+                continue
+            break       # one failure per template is enough
+    return fails, n_runs, n_chk
+
+
+def _text_setter(P, ps):
+    """setter for a rebuilt tree: roles p (and q, when there are two parameters) follow the history, every further
+    parameter follows q's values"""
+    def setter(stage):
+        for role, o in P.items():
+            o.set(ph_value("float" if stage[role][0] == "default" else stage[role][0], stage[role][1]))
+        for o in ps.values():
+            if all(o is not r for r in P.values()):
+                o.set(float(stage["q"][1]))
+    return setter
+
+
+def param_history_on_text(rng, text, wrt_name, full=False):
+    """the same histories on an arbitrary serialised expression containing Parameters (search(): the mismatching cases
+    themselves); every history on a freshly rebuilt tree.  returns a failure or None"""
+    from ser import Deser
+
+    probe = deser(text)
+    names = sorted(expr_params(probe))
+    if not names:
+        return None
+    roles = {"p": names[0]}
+    if len(names) > 1:
+        roles["q"] = names[1]
+    for stages in ph_histories(rng, full):
+        for path in PH_PATHS:
+            e = deser(text, Deser())
+            ps = expr_params(e)
+            P = {role: ps[nm] for role, nm in roles.items()}
+            setter = _text_setter(P, ps)
+            setter(stages[0])
+            vs = gen.expr_vars(e)
+            w = next((v for v in vs if v.name == wrt_name), None)
+            if w is None:
+                return None
+            r, _c, _s = run_param_history(e, P, setter, stages, path, [w], ph_points(rng, {v.name for v in vs}, 3))
+            if r is not None:
+                return _ph_failure(r, e, "", "scalar", path, stages, P)
+    return None
+
+
+def replay_param_history(f) -> bool:
+    """rebuild the tree (by template tag when it came from the family, else from its serialisation), re-run the history"""
+    import sys
+    from ser import Deser
+
+    stages = [{k: (v[0], float(v[1])) for k, v in st.items()} for st in f["history"]]
+    rng = core.Rng(0)
+    old_limit = sys.getrecursionlimit()
+    sys.setrecursionlimit(max(old_limit, 20000))
+    try:
+        if f.get("template"):
+            U, P, setter = ph_universe(rng, stages[0], f.get("via", "scalar"))
+            e = dict(param_templates(U, P))[f["template"]]()
+        else:
+            e = deser(f["expr"], Deser())
+            ps = expr_params(e)
+            P = {role: ps[nm] for role, nm in f["param_names"].items()}
+            setter = _text_setter(P, ps)
+            setter(stages[0])
+    finally:
+        sys.setrecursionlimit(old_limit)
+    w = next((v for v in gen.expr_vars(e) if v.name == f["wrt"]), None)
+    if w is None:
+        print("variable not found:", f["wrt"])
+        return True
+    pt = {k: float(v) for k, v in f["point"].items()}
+    r, n, _ = run_param_history(e, P, setter, stages, f.get("path", "recursive"), [w], [pt])
+    print("history:", f["history"], "path:", f.get("path"), "oracle evaluations:", n)
+    print("result:", r)
+    return r is None
+
+
 def run(ctx) -> core.Report:
     rng = ctx["rng"]
     thorough = ctx["tier"] == "thorough" or ctx["escalate"]
     rep = core.Report(rule="cell cover of the differentiator (operator × child-derivative shape, every unary "
                            "function, every registered vector rule × operand kind × wrt inside/outside) + seeded random "
                            "trees + magnitude family (constants tiny / within 1e-15..1e-6 of ±1 / huge in every "
-                           "multiplicative, chain, exponent and coefficient position, relative dual-number oracle); "
+                           "multiplicative, chain, exponent and coefficient position, relative dual-number oracle) + Parameters in "
+                           "every position × differentiate / Parameter.set / re-evaluate old and re-requested trees at the "
+                           "current values (first differentiation at exactly 0 / 1 / default, both differentiator paths); "
                            "non-trivial = distinct (expression, wrt) whose gradient is not the literal 0")
     cases = []
     for tag, e, w in cell_cover(rng):
@@ -723,6 +1257,18 @@ def run(ctx) -> core.Report:
     for i, (tag, e, w, _c, exact) in enumerate(mag_cases):
         if exact and (not thorough or i % 4 == 0):
             cases.append((tag, e, w, False))
+
+    # Parameters in every position, holding exactly 0 / 1 when the tree is differentiated (checklist 29): the model's
+    # derivative of a tree does not depend on parameter values, so the structure must not either
+    for v0p, v0q in ((0.0, 1.0), (1.0, 0.0)):
+        Up, Pp, _ = ph_universe(rng, {"p": ("float", v0p), "q": ("float", v0q)}, "scalar")
+        for tag, build in param_templates(Up, Pp):
+            if tag.startswith("deep:"):
+                continue
+            e = build()
+            vs = gen.expr_vars(e)
+            if vs:
+                cases.append((f"phist{int(v0p)}:{tag}", e, rng.choice(vs), False))
 
     ids = Ids()
     lines, metas = [], []
@@ -785,6 +1331,12 @@ def run(ctx) -> core.Report:
     rep.oracle_failures.extend(fails)
     rep.histogram["magnitude_cases"] = len(mag_cases)
     rep.histogram["magnitude_oracle_points"] = n_mag
+    # Parameters × set histories: trees obtained before a Parameter.set() and trees requested again after it, judged
+    # at the current values
+    fails, n_runs, n_chk = param_history_oracle(rng, thorough, rep, limit=10)
+    rep.oracle_failures.extend(fails)
+    rep.histogram["param_history_runs"] = n_runs
+    rep.histogram["param_history_oracle_points"] = n_chk
     return rep
 
 
@@ -808,6 +1360,11 @@ def search(ctx, rep):
         w = next((v for v in vs if v.name == mm["wrt"]), None)
         if w is None:
             continue
+        if expr_params(e) and len(seen) <= 120:
+            # a tree with Parameters: histories (differentiate at 0 / 1 / generic, set, judge old and new trees)
+            r = param_history_on_text(rng, mm["expr"], w.name, full=True)
+            if r is not None:
+                return r
         for _ in range(40):
             pt = gen.rand_point(rng, vs, lo=-3.0, hi=3.0)
             for chk in (numeric_check, numeric_check_rel):
@@ -815,6 +1372,9 @@ def search(ctx, rep):
                 if r not in (None, "skip"):
                     r.update({"expr": mm["expr"], "wrt": w.name, "point": pt})
                     return r
+    fails, _, _ = param_history_oracle(rng, True, limit=1)
+    if fails:
+        return fails[0]
     fails, _ = magnitude_oracle(rng, magnitude_cover(rng, True), limit=1)
     if fails:
         return fails[0]
@@ -836,6 +1396,8 @@ def search(ctx, rep):
 
 def replay(payload) -> bool:
     f = payload["failure"]
+    if f.get("kind") == "param-history":
+        return replay_param_history(f)
     e = deser(f["expr"])
     from optyx import Variable
 
